@@ -18,8 +18,9 @@ def natList (s : String) : Option (List Nat) :=
 
 def parseScript (s : String) : Option Script :=
   match s.splitOn "," with
-  | [al, ic, ifc, fo, rd, tag, om, st, ex] => do
+  | [al, ic, ifc, fo, rd, tag, om, st, ex, cd] => do
     let ic ← natList ic
+    let cd ← natList cd
     let ifc ← if ifc = "-" then some [] else (ifc.splitOn "+").mapM natList
     let fo ← if fo = "-" then some none else fo.toNat?.map some
     let rd ← natList rd
@@ -28,7 +29,7 @@ def parseScript (s : String) : Option Script :=
     let st ← st.toNat?
     let ex ← ex.toNat?
     pure { always := al == "1", ifcreate := ic, ifchange := ifc, failIfOdd := fo, reads := rd, tag := tag,
-           outMode := om, stamp := st, exit := ex }
+           outMode := om, stamp := st, exit := ex, cond := cd }
   | _ => none
 
 def parseOp (s : String) : Option UserOp :=
@@ -36,6 +37,8 @@ def parseOp (s : String) : Option UserOp :=
   | ["w", f, v] => do pure (.write (← f.toNat?) (← v.toNat?))
   | ["r", f] => do pure (.remove (← f.toNat?))
   | ["m", f] => do pure (.chmod (← f.toNat?))
+  | ["h", f] => do pure (.hide (← f.toNat?))
+  | ["u", f] => do pure (.unhide (← f.toNat?))
   | ["p", c, sc] => do pure (.setProg (← natList c) (← parseScript sc))
   | ["c", "redo", kg, ts] => do pure (.cmd (.redo (← natList ts) (kg == "1")))
   | ["c", "ifc", kg, ts] => do pure (.cmd (.ifchange (← natList ts) (kg == "1")))
